@@ -48,6 +48,35 @@ impl<R> ReaderCursor<R> {
     }
 }
 
+#[cfg(grenad_verif)]
+impl<R> ReaderCursor<R> {
+    /// Read-only fingerprint of everything the cursor's future behaviour depends on:
+    /// `index(level, recorded_offset, loaded_block_bytes, in_block_position)` is called for each
+    /// loaded index level (root first), then `data(loaded_block_bytes, in_block_position)` if a
+    /// data block is loaded. Returns whether the index levels are initialized.
+    pub fn verif_fingerprint(
+        &self,
+        mut index: impl FnMut(usize, u64, &[u8], Option<usize>),
+        mut data: impl FnMut(&[u8], Option<usize>),
+    ) -> bool {
+        let initialized = match self.index_block_cursor.inner.as_ref() {
+            Some(inner) => {
+                for (level, (offset, cursor)) in inner.iter().enumerate() {
+                    let (bytes, pos) = cursor.verif_parts();
+                    index(level, *offset, bytes, pos);
+                }
+                true
+            }
+            None => false,
+        };
+        if let Some(cursor) = self.current_cursor.as_ref() {
+            let (bytes, pos) = cursor.verif_parts();
+            data(bytes, pos);
+        }
+        initialized
+    }
+}
+
 impl<R: io::Read + io::Seek> ReaderCursor<R> {
     /// Creates a new [`ReaderCursor`] by consumming a [`Reader`].
     pub(crate) fn new(reader: Reader<R>) -> Result<ReaderCursor<R>, Error> {
